@@ -1178,26 +1178,26 @@ func run(c *Ctx) error {
 	st.Case("corpus-retirement", true)
 
 	// ---- transactions
-	nCoq := c.N(26, 220)
+	nCoq := c.N(20, 150)
 	for i := 0; i < nCoq; i++ {
 		g.small = true
 		k.doTx(g.tx(), "generated-small", true)
 	}
 	g.small = false
-	nTx := c.N(1500, 12000)
+	nTx := c.N(700, 6000)
 	for i := 0; i < nTx; i++ {
 		k.doTx(g.tx(), "generated", false)
 	}
 
 	// ---- headers
-	nHdrCoq := c.N(30, 200)
-	nHdr := c.N(1500, 10000)
+	nHdrCoq := c.N(24, 150)
+	nHdr := c.N(1000, 8000)
 	for i := 0; i < nHdr; i++ {
 		k.doHeader(g.header(), i < nHdrCoq)
 	}
 
 	// ---- blocks
-	nBlk := c.N(300, 2500)
+	nBlk := c.N(150, 1500)
 	for i := 0; i < nBlk; i++ {
 		k.doBlock()
 	}
